@@ -11,19 +11,21 @@ def run(ck):
     groups = []
     for g in Q:
         g = dict(g); g["orc"] = 0
-        g["calls"] = [pcall(a, f, extra=False) for a in COVERS for f in ("list", "dict")]
+        g["calls"] = [pcall(a, f, extra=False) for a in COVERS for f in ("list", "dict", "falsydict", "emptystr")]
         groups.append(g)
     fam = gen.cover_families(ck.rng, 400 if q else 30000, maxn=40) + gen.near_miss_families(ck.rng, 60 if q else 600, giga=True)
     for g in fam:
         g = dict(g); g["orc"] = 0
-        g["calls"] = [pcall(a, f, extra=False) for a in COVERS for f in ("list", "dict")]
+        g["calls"] = [pcall(a, f, extra=False) for a in COVERS for f in ("list", "dict", "falsydict")]
         groups.append(g)
+    for g in gen.long_families(ck.rng, 40 if q else 2000, cover=True):           # 65-260 items: code paths chosen by input size
+        g = dict(g); g["orc"] = 0; g["calls"] = [pcall(a, "list", extra=False) for a in COVERS]; groups.append(g); ck.cat("long_sequences")
     for g in gen.gscale_families(ck.rng, 100 if q else 3000, cover=True):       # magnitudes around 2^31 (values <= 21 times a common factor of about 1e8)
         g = dict(g); g["orc"] = 0; g.pop("fmts")
         g["calls"] = [pcall(a, f, extra=False) for a in COVERS for f in ("list", "dict")]
         groups.append(g); ck.cat("common_factor_1e8")
     ck.rule = ("TLC enumerates every arrival sequence of <=5 positive values up to C+2 for C in {4,5,6,7} (items larger than a bin, inputs that cover "
-               "nothing, repeats included); decreasing, two-thirds and three-quarters executed on each as a plain list and as a dict; plus seeded families "
+               "nothing, repeats included); decreasing, two-thirds and three-quarters executed on each as a plain list, as a dict with string names and as dicts whose largest item is named 0 / the empty string (dict(enumerate(values)) is an everyday input); plus seeded families "
                "up to 40 items around the class thresholds. non-trivial = distinct (sequence, C) with >=2 items")
     run_pack_groups(ck, groups, {"C05"}, "C05 valid covers")
     ck.assumptions += ["TLC / SANY / CommunityModules", "dict input uses string names unrelated to the values"]
